@@ -190,3 +190,15 @@ func (u *upserter) upsertLenient(ctx *sql.Context, old, proposed sql.Row) (sql.R
 	}
 	return merged, nil
 }
+
+// applyFlat evaluates the unsplit list. BUG (C19-G3 reads-unsplit-expressions).
+func applyFlat(ue *plan.UpdateExprs, row sql.Row) (sql.Row, error) {
+	for _, e := range ue.All() {
+		val, err := e.Eval(row)
+		if err != nil {
+			return nil, err
+		}
+		row = val.(sql.Row)
+	}
+	return row, nil
+}
